@@ -384,6 +384,7 @@ func runScenario(sc *proto.Scenario, nSites int) (res *proto.Result) {
 	}
 	simrt.ResetRun()
 	simrt.Configure(sc.Perm, nSites)
+	simrt.EnvSeed = sc.EnvSeed
 	if sc.PoolSeed != 0 {
 		pr := &rng{s: sc.PoolSeed}
 		simrt.PoolChoice = func(n int) int { return pr.intn(n+1) - 1 }
@@ -732,6 +733,7 @@ func runScenario(sc *proto.Scenario, nSites int) (res *proto.Result) {
 	}
 	w.stats.Touches = simrt.Touches
 	w.stats.WriteYields = simrt.WriteYields
+	w.stats.EnvReads = simrt.EnvReads
 	w.stats.Steps = simrt.Steps
 	w.stats.Slices = len(res.Schedule)
 	w.stats.Switches = sched.Switches
